@@ -9,9 +9,12 @@ from . import pipeline as P
 
 
 def prop_modules():
+    """Modules of the properties claimed in MANIFEST.json (work in progress for others is not built)."""
+    import json
+    claimed = [c['property_id'] for c in json.load(open(os.path.join(P.VERIF, 'MANIFEST.json')))['checks']]
     mods = []
-    for p in sorted(glob.glob(os.path.join(P.VERIF, 'lib', 'props', 'c[0-9][0-9].py'))):
-        mods.append(importlib.import_module('lib.props.' + os.path.basename(p)[:-3]))
+    for pid in claimed:
+        mods.append(importlib.import_module('lib.props.' + pid.lower()))
     return mods
 
 
@@ -24,8 +27,15 @@ def main():
                 m.translate(P.Report(m.ID, 'quick', 1))
             except Exception as e:
                 P.log('translate %s failed: %r' % (m.ID, e))
+        if hasattr(m, 'setup'):
+            m.setup()
     P.coq_clean()
-    ok, out = P.coq_make([], timeout=3000)
+    targets = []
+    for m in mods:
+        targets.append('theories/Properties/%s.vo' % m.ID)
+        for x in list(getattr(m, 'COQ_EXTRA', [])) + ([m.RUN_MODULE] if getattr(m, 'RUN_MODULE', None) else []):
+            targets.append('theories/%s.vo' % x.replace('.', '/'))
+    ok, out = P.coq_make(sorted(set(targets)), timeout=3000)
     if not ok:
         print(out[-5000:])
         rc = 1
